@@ -153,7 +153,8 @@ static void DecodeAdr(tStrComp const* pArg, Byte Erl) {
                 Arg = Remainder;
             }
         } while (EPos && OK);
-        if (DispAcc != 0) {
+        /* an operand without any register is an absolute address, also when its value is 0 */
+        if ((DispAcc != 0) || (RegFlag == 0)) {
             RegFlag |= 1 << AdrRegCnt;
         }
         if (OK) {
